@@ -57,6 +57,8 @@ def classify_enc(res, rows):
     found = 0
     stats = {"in_universe_roundtrips": 0, "unrepresentable_errors": 0, "outside_universe": 0, "invalid_utf8_api_strings": 0}
     for r in rows:
+        if found >= 4:
+            break
         d = r["val"]
         if r.get("panic"):
             res.violation({"what": "Go panic while serialising / restoring a value", "value": d, "panic": r["panic"]})
@@ -84,8 +86,6 @@ def classify_enc(res, rows):
             found += 1
         else:
             stats["in_universe_roundtrips"] += 1
-        if found >= 4:
-            break
     return found, stats
 
 
@@ -153,13 +153,33 @@ def check_cycles(res):
     return found, n
 
 
+def api_cycles(res):
+    """The five API-built cyclic heaps of the battery (self-array, clone-cycle, self-dict, computed attrs, mixed),
+    one process each."""
+    rows_out, found = [], 0
+    for k in range(5):
+        rows, r = common.run_harness(["c09-enc", "-cyc", k], timeout=120, check=False, mem_kb=4_000_000)
+        vals = [x for x in rows if "val" in x]
+        if r.returncode != 0 or not vals:
+            res.violation({"what": "ToJSON of a cyclic value killed the process (fatal error, not recoverable)", "battery_value": k,
+                           "kinds": "0 array containing itself, 1 array containing a clone of its wrapper, 2 dict containing itself, "
+                                    "3 computed value whose attribute is itself, 4 array -> dict -> array",
+                           "returncode": r.returncode, "stderr": (r.stderr or "")[:600], "replay_cmd": f"harness c09-enc -cyc {k}"})
+            found += 1
+        rows_out += vals
+    return rows_out, found
+
+
 def check_transparency(res, seed, n):
     rows, _ = common.run_harness(["c09-trans", "-seed", seed, "-n", n], timeout=1500)
     summary = next((r for r in rows if r.get("summary")), {})
     reports = [r for r in rows if not r.get("summary")]
     found = 0
     alias, outside = [], []
+    summary["nondeterministic_replays_skipped"] = (summary.get("by_stage") or {}).get("nondeterministic-replay", 0)
     for r in reports:
+        if r.get("stage") == "nondeterministic-replay":
+            continue
         if r.get("stage") in ("follow", "structure") and r.get("shared"):
             alias.append(r)
         elif r.get("outside"):
@@ -171,6 +191,16 @@ def check_transparency(res, seed, n):
             found += 1
             if found >= 3:
                 break
+    # fixed probe: a native bound method in a variable (outside the property's universe) cannot be restored
+    probe, _ = common.run_harness(["c09-replay"], stdin=json.dumps({"prog": ["m1 = [1,2].sum"], "prefix": 1, "follow": "m1()", "hi": "1", "lo": "2"}) + "\n")
+    for r in probe:
+        if r.get("summary"):
+            continue
+        if r.get("outside") and r.get("stage") == "restore":
+            outside.append(r)
+        else:
+            res.violation({"what": "native bound method probe: unexpected outcome", "report": r})
+            found += 1
     return found, summary, alias, outside
 
 
@@ -184,7 +214,17 @@ def run(res, tier, seed):
     common.build_harness()
     quick = tier == "quick"
     n_enc = 1200 if quick else 8000
-    rows, _ = common.run_harness(["c09-enc", "-seed", seed, "-n", n_enc])
+    # cycles first, each in a child process (an unbounded recursion is a fatal error that takes the process down)
+    f3, ncyc = check_cycles(res)
+    cyc_rows, f3b = api_cycles(res)
+    rows, proc = common.run_harness(["c09-enc", "-seed", seed, "-n", n_enc], check=False)
+    if proc.returncode != 0:
+        res.violation({"what": "the harness process died while serialising the value battery (fatal error, not recoverable)",
+                       "returncode": proc.returncode, "stderr": (proc.stderr or "")[:1200], "replay_cmd": f"harness c09-enc -seed {seed} -n {n_enc}"})
+        f3b += 1
+    rows = rows + cyc_rows
+    if len(rows) < 50:
+        raise Broken("harness c09-enc produced no battery", (proc.stderr or "")[:2000])
     for r in rows:
         res.count(json.dumps(r["val"], sort_keys=True), nontrivial=bool(r["val"].get("l")) or r["val"]["t"] in (5, 8))
     res.sample({"value": rows[40]["val"], "json": bytes.fromhex(rows[40].get("text", "")).decode("utf-8", "replace")})
@@ -228,9 +268,8 @@ def run(res, tier, seed):
 
     found, stats = classify_enc(res, rows)
     f2, sstats = check_scripts(res)
-    f3, ncyc = check_cycles(res)
     f4, summary, alias, outside = check_transparency(res, seed, 120 if quick else 1500)
-    found += f2 + f3 + f4
+    found += f2 + f3 + f3b + f4
     res.cov["input_distribution"] = {"battery_rows": len(rows), **stats, **sstats, "cycle_scripts_in_child_processes": ncyc,
                                      "transparency": summary, "follow_up_differences_with_aliasing": len(alias),
                                      "restore_errors_outside_universe": len(outside)}
